@@ -9,6 +9,7 @@ import (
 	"runtime"
 	"sort"
 	"strings"
+	"sync"
 	"sync/atomic"
 	"testing"
 	"time"
@@ -1848,7 +1849,7 @@ func c17RandomMW(r *rand.Rand, kind string) c17MW {
 	case "limit":
 		m.N = vk.Pick(r, []int64{1, 2, 10, 500, 5000})
 	case "subid":
-		m.N = vk.Pick(r, []int64{1, 2, 4, 8, 32, 64})
+		m.N = vk.Pick(r, []int64{1, 2, 4, 8, 32, 64, 65, 100, 1000}) // NIP-01 caps ids at 64, the middleware enforces what it is given
 	case "tags":
 		m.N = vk.Pick(r, []int64{1, 2, 5, 20})
 	case "content":
@@ -1931,7 +1932,7 @@ func c17NIP11Doc(r *rand.Rand, variant int) (*mocrelay.NIP11, []c17MW) {
 
 func TestVerif_C17(t *testing.T) {
 	rep := vk.NewReport(t, "C17", "exploration")
-	rep.Rule = "sessions through the real wrapper mw(recordingHandler).ServeNostr: (single) each of the 10 stateless limit middlewares alone, (stack) 2-6 of them in a seeded order, (nip11) BuildMiddlewareFromNIP11 for every subset of the seven limits (max_subscriptions, max_filters, max_limit, max_event_tags, max_content_length, created_at lower/upper) and for documents without a limitation block; a session is 8-30 batches of 1-4 client messages (EVENT/REQ/COUNT/CLOSE/AUTH with sizes 0, limit-1, limit, limit+1 and far above each configured limit, multi-filter REQ/COUNT with the violating limit first/last/mixed, timestamps >= 90 s from every moving boundary, sub ids/content never with byte and rune length on different sides of a limit) interleaved with 0-3 scripted server messages of all seven types; every batch is closed by a sentinel round trip and judged: handler-side log == sent messages that respect every limit (deep-equal to the pre-send copy, in order), client-side log == scripted server messages (deep-equal, in order) plus exactly one OK(false,id)/CLOSED(sub id) per violating message (a rejection may also arrive in a later window of the same session; it is missing only if still absent after a final bounded wait and the end of the session); (aged) 36 configurations with a created_at lower/upper limit (single middleware, window middleware, stack, three NIP-11 chains; limits 5/600/86400 s) are built once, left alone for 3.5 s and then probed, on the session started before the wait and on a fresh session of the same handler, with events stamped from the clock at send time: now-lower-2 must be rejected, now+upper-2 forwarded, now+upper+30 rejected (round trip < 20 s), now forwarded when every boundary is >= 600 s away; evaluation = one judged client message; non-trivial = every judged message; distinct = distinct (phase, middleware kind, message type, size classes, verdict)"
+	rep.Rule = "sessions through the real wrapper mw(recordingHandler).ServeNostr: (single) each of the 10 stateless limit middlewares alone, (stack) 2-6 of them in a seeded order, (nip11) BuildMiddlewareFromNIP11 for every subset of the seven limits (max_subscriptions, max_filters, max_limit, max_event_tags, max_content_length, created_at lower/upper) and for documents without a limitation block; a session is 8-30 batches of 1-4 client messages (EVENT/REQ/COUNT/CLOSE/AUTH with sizes 0, limit-1, limit, limit+1 and far above each configured limit, multi-filter REQ/COUNT with the violating limit first/last/mixed, timestamps >= 90 s from every moving boundary, sub ids/content never with byte and rune length on different sides of a limit) interleaved with 0-3 scripted server messages of all seven types; every batch is closed by a sentinel round trip and judged: handler-side log == sent messages that respect every limit (deep-equal to the pre-send copy, in order), client-side log == scripted server messages (deep-equal, in order) plus exactly one OK(false,id)/CLOSED(sub id) per violating message (a rejection may also arrive in a later window of the same session; it is missing only if still absent after a final bounded wait and the end of the session); (concurrent) 2-4 sessions at once on one handler wrapped in 1-3 limit middlewares or a NIP-11 chain, each sending 10-29 admissible EVENTs that its downstream session answers with a marked OK and two marked NOTICEs: every session gets exactly its own server messages in order and its downstream session exactly its own events; (aged) 36 configurations with a created_at lower/upper limit (single middleware, window middleware, stack, three NIP-11 chains; limits 5/600/86400 s) are built once, left alone for 3.5 s and then probed, on the session started before the wait and on a fresh session of the same handler, with events stamped from the clock at send time: now-lower-2 must be rejected, now+upper-2 forwarded, now+upper+30 rejected (round trip < 20 s), now forwarded when every boundary is >= 600 s away; evaluation = one judged client message; non-trivial = every judged message; distinct = distinct (phase, middleware kind, message type, size classes, verdict)"
 	rep.Assume("created_at verdicts use the wall clock read at session start; generated timestamps keep 90 s from every boundary and sessions slower than 25 s are discarded")
 	rep.Assume("aged scenario: a delay between stamping an event and the middleware's check can only make now-lower-2 older and now+upper-2 less far in the future, so these two verdicts do not depend on scheduling; the wall clock is assumed not to step backwards during the run")
 	rep.Assume("CLOSE messages naming an over-long sub id, AUTH messages whose event violates an event limit, and strings whose byte and rune lengths fall on different sides of a limit are not generated (the statement does not decide them)")
@@ -1990,6 +1991,116 @@ func TestVerif_C17(t *testing.T) {
 		}
 		c17RunSession(rep, cfg, r, fmt.Sprintf("n%d", i), n)
 	})
+
+	// several sessions of one wrapped handler at the same time: each must get exactly the server
+	// messages its own downstream session emitted (an OK per EVENT, carrying the session's mark,
+	// and two marked NOTICEs), in order, and its downstream session exactly its own events
+	nConc := vk.N(60, 1200)
+	vk.ParallelW(8, nConc, func(i int) {
+		r := vk.RNG("C17/concurrent", i)
+		mws := []mocrelay.Middleware{}
+		desc := ""
+		for k, n := 0, 1+r.IntN(3); k < n; k++ {
+			switch r.IntN(6) {
+			case 0:
+				mws, desc = append(mws, mocrelay.Middleware(mocrelay.NewMaxEventTagsMiddleware(5))), desc+"/tags(5)"
+			case 1:
+				mws, desc = append(mws, mocrelay.Middleware(mocrelay.NewMaxContentLengthMiddleware(200))), desc+"/content(200)"
+			case 2:
+				mws, desc = append(mws, mocrelay.Middleware(mocrelay.NewMaxSubIDLengthMiddleware(20))), desc+"/subid(20)"
+			case 3:
+				mws, desc = append(mws, mocrelay.Middleware(mocrelay.NewMaxReqFiltersMiddleware(3))), desc+"/filters(3)"
+			case 4:
+				mws, desc = append(mws, mocrelay.Middleware(mocrelay.NewCreatedAtUpperLimitMiddleware(86400))), desc+"/upper(1d)"
+			default:
+				mws, desc = append(mws, mocrelay.BuildMiddlewareFromNIP11(&mocrelay.NIP11{Limitation: &mocrelay.NIP11Limitation{MaxEventTags: 5, MaxContentLength: 200, CreatedAtLowerLimit: 86400}})), desc+"/nip11(tags,content,lower)"
+			}
+		}
+		var downMu sync.Mutex
+		downGot := map[string][]string{} // session mark -> contents of the events its downstream session received
+		var down mocrelay.Handler = mocrelay.HandlerFunc(func(ctx context.Context, send chan<- mocrelay.ServerMsg, recv <-chan mocrelay.ClientMsg) error {
+			for {
+				select {
+				case <-ctx.Done():
+					return ctx.Err()
+				case m, ok := <-recv:
+					if !ok {
+						return mocrelay.ErrRecvClosed
+					}
+					em, is := m.(*mocrelay.ClientEventMsg)
+					if !is {
+						continue
+					}
+					mark := em.Event.Pubkey
+					downMu.Lock()
+					downGot[mark] = append(downGot[mark], em.Event.Content)
+					downMu.Unlock()
+					for _, sm := range []mocrelay.ServerMsg{
+						mocrelay.NewServerOKMsg(em.Event.ID, true, "", "ok "+em.Event.Content),
+						mocrelay.NewServerNoticeMsg("first notice after " + em.Event.Content),
+						mocrelay.NewServerNoticeMsg("second notice after " + em.Event.Content),
+					} {
+						select {
+						case send <- sm:
+						case <-ctx.Done():
+							return ctx.Err()
+						}
+					}
+				}
+			}
+		})
+		h := down
+		for k := len(mws) - 1; k >= 0; k-- {
+			h = mws[k](h)
+		}
+		nSess, nEv := 2+r.IntN(3), 10+r.IntN(20)
+		now := time.Now().Unix()
+		var wg sync.WaitGroup
+		for sidx := 0; sidx < nSess; sidx++ {
+			wg.Add(1)
+			go func(sidx int) {
+				defer wg.Done()
+				mark := vk.FakePub(170000 + i*8 + sidx)
+				s := vk.StartSession(context.Background(), h, 0)
+				defer s.Stop()
+				for k := 0; k < nEv; k++ {
+					content := fmt.Sprintf("c%d-s%d-e%d", i, sidx, k)
+					ev := vk.Seal(&mocrelay.Event{Kind: 1, Pubkey: mark, CreatedAt: now, Tags: []mocrelay.Tag{}, Content: content})
+					if !s.Put(&mocrelay.ClientEventMsg{Event: ev}) {
+						rep.Inconclusive("C17: concurrent phase: an EVENT was not taken (" + desc + ")")
+						return
+					}
+					want := []string{`["OK","` + ev.ID + `",true,"ok ` + content + `"]`, `["NOTICE","first notice after ` + content + `"]`, `["NOTICE","second notice after ` + content + `"]`}
+					for j := range want {
+						m, ok := s.Get()
+						rep.Eval(1)
+						if got := vk.JSON(m); !ok || got != want[j] {
+							rep.Violation("concurrent/server-message-not-its-own", fmt.Sprintf("%d sessions on one wrapped handler: session %d expected %s as its next server message and got %s", nSess, sidx, want[j], got),
+								map[string]any{"middlewares": desc, "sessions": nSess, "session": sidx, "event_number": k})
+							return
+						}
+					}
+				}
+				downMu.Lock()
+				got := append([]string{}, downGot[mark]...)
+				downMu.Unlock()
+				for k, c := range got {
+					if c != fmt.Sprintf("c%d-s%d-e%d", i, sidx, k) {
+						rep.Violation("concurrent/client-message-in-another-session", fmt.Sprintf("the downstream session of session %d received %q at position %d", sidx, c, k), map[string]any{"middlewares": desc})
+						return
+					}
+				}
+				if len(got) != nEv {
+					rep.Violation("concurrent/client-messages-lost", fmt.Sprintf("the downstream session of session %d received %d of %d events", sidx, len(got), nEv), map[string]any{"middlewares": desc})
+					return
+				}
+				rep.Count("concurrent_sessions", 1)
+				rep.Nontrivial(fmt.Sprintf("concurrent/%s/%d/%d", desc, nSess, sidx))
+			}(sidx)
+		}
+		wg.Wait()
+	})
+	rep.Require(rep.Counter("concurrent_sessions") >= int64(nConc*2), "too few concurrent sessions completed")
 
 	<-agedDone
 	rep.Set("aged_min_age_of_a_probed_middleware_ms", time.Duration(c17AgedMin.Load()).Milliseconds())
